@@ -5,6 +5,7 @@ import random
 import shutil
 import struct
 import subprocess
+import time
 
 from . import client, protocol
 from .common import Inconclusive, finish
@@ -417,6 +418,115 @@ def run(ctx):
                 if got != "OPENED || OPENED":
                     viol.append({"sig": "open-depends-on-client-credentials", "detail": "a valid, published, world-readable segment owned by uid 12345, opened by a client with real uid %d and effective uid %d: %s" % (ruid, euid, got), "replay": ""})
 
+            # permission errors: the checks run as root, for whom no open is refused, so the client is run
+            # under an unprivileged account. "the failing system call with its errno" = open / EACCES; a
+            # segment the client may only *read* (mode 0444/0400, another owner) must open.
+            perm_stats = {}
+            pd = os.path.join(cd, "perm")
+            os.makedirs(pd, exist_ok=True)
+            os.chmod(pd, 0o755)
+            locked = os.path.join(pd, "locked-dir")
+            os.makedirs(locked, exist_ok=True)
+            pcases = []
+
+            def mk(name, owner, mode, where=pd):
+                p = os.path.join(where, name)
+                shutil.copy(os.path.join(d0, "trunc-72"), p)
+                os.chown(p, owner, owner)
+                os.chmod(p, mode)
+                return p
+            denied = "ERR Syscall 13 open"
+            pcases.append((mk("other-0600", 12345, 0o600), denied, "mode 0600, another owner"))
+            pcases.append((mk("other-0640", 12345, 0o640), denied, "mode 0640, another owner and group"))
+            pcases.append((mk("own-0200", 23456, 0o200), denied, "mode 0200 (write-only), own file"))
+            pcases.append((mk("own-0000", 23456, 0o000), denied, "mode 0000, own file"))
+            pcases.append((mk("own-0400", 23456, 0o400), "OPENED", "mode 0400 (read-only), own file"))
+            pcases.append((mk("other-0444", 12345, 0o444), "OPENED", "mode 0444 (read-only for everyone), another owner"))
+            pcases.append((mk("root-0644", 0, 0o644), "OPENED", "mode 0644, owned by root"))
+            pcases.append((mk("inside", 12345, 0o644, locked), denied, "mode 0644 inside a directory of mode 0700 of another owner"))
+            os.chown(locked, 12345, 12345)
+            os.chmod(locked, 0o700)
+            plst = os.path.join(pd, "list.txt")
+            with open(plst, "w") as f:
+                f.write("\n".join(p for p, _, _ in pcases) + "\n")
+            os.chmod(plst, 0o644)
+            ctool = os.path.join(cd, "cdriver")
+            shutil.copy(client.build_cdriver(ctx, sanitize=False), ctool)
+            os.chmod(ctool, 0o755)
+
+            def drop_unpriv():
+                os.setgroups([])
+                os.setresgid(65534, 65534, 65534)
+                os.setresuid(23456, 23456, 23456)
+            for api, cmd in (("rust", [tool, "openlist", "--list", plst]), ("c", [ctool, "openlist", plst])):
+                try:
+                    pc = subprocess.run(cmd, stdout=subprocess.PIPE, stderr=subprocess.PIPE, text=True, timeout=60, preexec_fn=drop_unpriv, cwd=cd, env={"PATH": "/usr/bin:/bin"})
+                    lines = pc.stdout.splitlines()
+                except Exception as e:  # noqa
+                    perm_stats[api] = "could not run: %s" % e
+                    continue
+                if pc.returncode != 0 or len(lines) != len(pcases):
+                    if pc.returncode < 0 and -pc.returncode in (6, 7, 11):
+                        viol.append({"sig": "open-crash-unprivileged-" + api, "detail": "%s open run as uid 23456 died of signal %d after %d of %d files: %s" % (api, -pc.returncode, len(lines), len(pcases), pc.stderr[-300:]), "replay": ""})
+                    perm_stats[api] = "no answer (exit %d after %d lines: %s)" % (pc.returncode, len(lines), pc.stderr[-100:])
+                    continue
+                for (p, want, what), got in zip(pcases, lines):
+                    evaluations += 1
+                    answers_ = [x.strip() for x in got.split("||")]
+                    perm_stats.setdefault(api, {})[os.path.basename(p)] = got.strip()
+                    for a in answers_:
+                        if a != want:
+                            viol.append({"sig": "open-permission-outcome", "detail": "%s client running as uid 23456 opening a valid segment with %s: got '%s', expected '%s'" % (api, what, a, want), "replay": ""})
+            cred_stats["permissions"] = perm_stats
+
+        # ---------------------------------------------------------------- a FIFO with a writer attached
+        # (a FIFO nobody writes to blocks open(O_RDONLY) by POSIX and is excluded.) With a writer that sends
+        # well-formed segments the header can be read but the file cannot be mapped: any documented error
+        # is accepted, a success, a panic or a crash is not.
+        fifo_stats = {}
+        fp = os.path.join(d0, "a-fifo")
+        try:
+            os.mkfifo(fp)
+            valid_bytes = open(os.path.join(d0, "trunc-72"), "rb").read()
+            for api, cmd in (("rust", [csim, "openlist", "--list", "{list}"]), ("c", [cdrv, "openlist", "{list}"])):
+                lst = os.path.join(ctx.tmp, "fifo-list-%s.txt" % api)
+                with open(lst, "w") as f:
+                    f.write(fp + "\n")
+                e = dict(ctx.env)
+                e.update({"ASAN_OPTIONS": "halt_on_error=1:detect_leaks=0", "UBSAN_OPTIONS": "halt_on_error=1"})
+                pc = subprocess.Popen([a.replace("{list}", lst) for a in cmd], stdout=subprocess.PIPE, stderr=subprocess.PIPE, text=True, env=e)
+                wfd = None
+                try:
+                    # keep a writer attached and the pipe full of well-formed segments until the client has answered
+                    wfd = os.open(fp, os.O_RDWR | os.O_NONBLOCK)
+                    deadline = time.time() + 30
+                    while pc.poll() is None and time.time() < deadline:
+                        try:
+                            os.write(wfd, valid_bytes * 8)
+                        except BlockingIOError:
+                            pass
+                        time.sleep(0.01)
+                    if pc.poll() is None:
+                        pc.kill()
+                        pc.wait()
+                        fifo_stats[api] = "no answer within 30 s (inconclusive)"
+                        continue
+                    out, err = pc.communicate()
+                finally:
+                    if wfd is not None:
+                        os.close(wfd)
+                evaluations += 1
+                line = out.strip().splitlines()[-1] if out.strip() else ""
+                fifo_stats[api] = line or "exit %d: %s" % (pc.returncode, err[-200:])
+                if pc.returncode != 0 or not line:
+                    viol.append({"sig": "open-crash-fifo-" + api, "detail": "%s client opening a FIFO that delivers well-formed segments exited %d: %s" % (api, pc.returncode, err[-300:]), "replay": ""})
+                    continue
+                for a in [x.strip() for x in line.split("||")]:
+                    if not a.startswith("ERR "):
+                        viol.append({"sig": "open-fifo-outcome", "detail": "%s client opening a FIFO that delivers well-formed segments (it cannot be mapped): got '%s', a documented error expected" % (api, a), "replay": ""})
+        except OSError as e:
+            fifo_stats["setup"] = "could not create a FIFO: %s" % e
+
         # ---------------------------------------------------------------- repair
         rviol, repair_stats, revals, rsamples = repair_phase(ctx, csim, files, magic, dirs)
         viol += rviol
@@ -431,7 +541,7 @@ def run(ctx):
     coverage = {
         "evaluations": evaluations,
         "distinct_nontrivial": len(distinct),
-        "rule": "corpus: every truncation length 0..80 of a valid segment (exhaustive), every header field at edge values, magic bytes flipped one at a time, the three readings of the documented magic, two-defect files, valid headers with short/random bodies, random bytes of length 0..256, path kinds (missing, directory, symlink, dangling symlink, /dev/null, missing directory); "
+        "rule": "corpus: every truncation length 0..80 of a valid segment (exhaustive), every header field at edge values, magic bytes flipped one at a time, the three readings of the documented magic, two-defect files, valid headers with short/random bodies, random bytes of length 0..256, path kinds (missing, directory, symlink, dangling symlink, /dev/null, missing directory, a FIFO fed by a writer); a valid segment under eight permission/ownership settings opened by an unprivileged client (EACCES from open, or success where reading is permitted); "
                 "each file opened through ClockBoundClient, ShmReader and clockbound_open (C, ASan+UBSan; thorough: also the Rust side under rustc's AddressSanitizer and both under valgrind) and compared with the decision table of the statement; each file also opened 100 times in one process under a descriptor limit of 64, after which a valid segment must still open (failed opens leave nothing behind); then daemon start-up + first publication over each file on tmpfs and on a disk-backed directory, a new client reading (A) while the writer lives and (B) after the writer is gone, the file fsync'ed and its page cache dropped; "
                 "distinct_nontrivial = distinct corpus files (all non-trivial: each has an expected outcome)",
         "samples": samples,
@@ -439,6 +549,7 @@ def run(ctx):
         "repair": repair_stats,
         "repeated_opens": stress,
         "client_credentials": cred_stats,
+        "fifo_with_writer": fifo_stats,
         "exhaustive_over": "truncation lengths 0..80",
     }
     # threads and forked children in a C client (own contexts, handed-over contexts, inherited contexts)
@@ -448,7 +559,7 @@ def run(ctx):
     coverage["multi_threaded_c_client"] = _ms
     if any("inconclusive" in str(v) or str(v).startswith("exit ") for v in _ms.values()) and not inconclusive:
         inconclusive = "multi-threaded C client scenario did not complete: %s" % _ms
-    finish(ctx, coverage, viol, inconclusive, assumptions=["checks run as root: permission errors are not exercised", "FIFOs excluded (open(O_RDONLY) blocks by POSIX)",
+    finish(ctx, coverage, viol, inconclusive, assumptions=["permission errors are exercised through clients run under an unprivileged account (setresuid from root); skipped when the check itself does not run as root", "a FIFO nobody writes to is excluded (open(O_RDONLY) blocks by POSIX); a FIFO with a writer attached is opened",
                                                           "posix_fadvise(DONTNEED) after fsync drops clean page-cache pages on the disk-backed file system"])
 
 
